@@ -88,6 +88,21 @@ TARGETS = [
     Target('yield_as_sleep', TH, r'inline int yield_as_sleep\(\)', rules=US),
     Target('thread_usleep_pub', TH, r'int thread_usleep\(Timeout timeout\) (?=\{)', rules=US),
     Target('thread_usleep_defer_pub', TH, r'int thread_usleep_defer\(Timeout timeout, defer_func defer, void\* defer_arg\) (?=\{)', rules=US),
+    Target('thread_pause_work_stealing', 'thread/thread.h', r'inline void thread_pause_work_stealing\(bool flag, thread\* th = CURRENT\)', refs=True,
+           rules=[(r'\(\((?:photon::)?partial_thread\*\)\s*(?:photon::)?(\w+)\)', r'((struct partial_thread *)\1)', 0), (r'photon::', '', 0)]),
+    Target('scoped_pause_macro', 'thread/thread.h', r'#define SCOPED_PAUSE_WORK_STEALING', region_end=r'\n\s*\n', refs=True,
+           pre_rules=[(r'#define SCOPED_PAUSE_WORK_STEALING', '{', 1), (r'\\\n', '\n', 1), (r'\s*\Z', ' MID_SCOPE(); }', 1)],
+           defers=dict(rettype='void'),
+           rules=[(r'\(\((?:photon::)?partial_thread\*\)\s*(?:photon::)?(\w+)\)', r'((struct partial_thread *)\1)', 0), (r'photon::', '', 0)]),
+    Target('th_is_bit', TH, r'bool is_bit\(int i\) (?=\{)', rules=[fields_rule(['flags'])]),
+    Target('th_clear_bit', TH, r'void clear_bit\(int i\) (?=\{)', rules=[fields_rule(['flags'])]),
+    Target('th_set_bit1', TH, r'void set_bit\(int i\) (?=\{)', rules=[fields_rule(['flags'])]),
+    Target('th_set_bit2', TH, r'void set_bit\(int i, bool flag\) (?=\{)', rules=[(r'(?<![\w>.])set_bit\(i\)', 'fth_set_bit1(this, i)', 1), (r'(?<![\w>.])clear_bit\(i\)', 'fth_clear_bit(this, i)', 1)]),
+    Target('th_is_shutting_down', TH, r'bool is_shutting_down\(\) (?=\{)', rules=[(r'(?<![\w>.])is_bit\(shift::(\w+)\)', r'fth_is_bit(this, shift_\1)', 1)]),
+    Target('th_set_shutting_down', TH, r'void set_shutting_down\(bool flag = true\) (?=\{)', rules=[(r'(?<![\w>.])set_bit\(shift::(\w+), flag\)', r'fth_set_bit(this, shift_\1, flag)', 1)]),
+    Target('thread_shutdown', TH, r'int thread_shutdown\(thread\* th, bool flag\)', rules=[
+        (r'LOG_ERROR_RETURN\((\w+), (-?\w+),[^;]*;', r'{ errno = \1; return \2; }', 1), (r'th->set_shutting_down\(', 'fth_set_shutting_down(th, ', 1),
+        (r'states::(\w+)', r'states_\1', 1), (r'(?<![\w>.])thread_interrupt\(', 'thread_interrupt_(', 1)]),
     Target('shutdown_usleep', TH, r'static int do_shutdown_usleep\(Timeout timeout, RunQ rq\)', rules=[
         (r'timeout\.timeout_at_most\(', 'Timeout_at_most(&timeout, ', 1)]),
     Target('shutdown_usleep_defer', TH, r'static int do_shutdown_usleep_defer\(Timeout timeout,\s*defer_func defer, void\* defer_arg, RunQ rq\)', rules=[
@@ -107,7 +122,7 @@ TARGETS = [
     Target('pop_front', TH, r'thread\* pop_front\(\)', rules=Q + [(r'(?<![\w>.])down\(', 'SQ_down(this, ', 1)]),
     Target('pop', TH, r'int pop\(thread \*obj\)', rules=Q + [(r'(?<![\w>.])up\(', 'SQ_up(this, ', 1), (r'(?<![\w>.])down\(', 'SQ_down(this, ', 1)]),
 ]
-UNITS = {'sleep.c': 'sleep.c.in', 'sched.c': 'sched.c.in', 'usleep.c': 'usleep.c.in'}
+UNITS = {'sleep.c': 'sleep.c.in', 'sched.c': 'sched.c.in', 'usleep.c': 'usleep.c.in', 'flags.c': 'flags.c.in'}
 PROOFS = [
     Proof('sat_arith', 'sleep.c', 'h_sat', kind='L', min_obligations=2),
     Proof('timeout', 'sleep.c', 'h_timeout', kind='L', min_obligations=5),
@@ -120,6 +135,8 @@ PROOFS = [
     Proof('idle_wait', 'sched.c', 'h_idle_wait', kind='L', min_obligations=3),
     Proof('usleep/dispatch', 'usleep.c', 'h_usleep', kind='L', min_obligations=4),
     Proof('usleep/defer', 'usleep.c', 'h_usleep_defer', kind='L', min_obligations=4),
+    Proof('flags/pause_scope', 'flags.c', 'h_pause_scope', kind='L', min_obligations=3),
+    Proof('flags/thread_shutdown', 'flags.c', 'h_thread_shutdown', kind='L', min_obligations=4),
     Proof('shutdown_cap', 'sleep.c', 'h_shutdown', kind='L', min_obligations=3),
     Proof('sleepq/push_n6', 'sleep.c', 'h_heap', kind='B', defines=['HN=7', 'OP=0'], unwind=10, bound='at most 6 sleepers before the operation, all 64-bit deadlines', timeout=900, mem_gb=16),
     Proof('sleepq/push_n14', 'sleep.c', 'h_heap', kind='B', defines=['HN=15', 'OP=0'], unwind=18, bound='at most 14 sleepers before the operation, all 64-bit deadlines', timeout=3000, mem_gb=24, tier='thorough'),
